@@ -25,27 +25,54 @@ def dense_stacks(rng, n):
         cat = cats[i % len(cats)]
         b = RB(ID, cat, rng.fork(), "opt")
         b.new("a")
+        # a bare twin region receives the same values: whatever the stack reports beyond the twin is its own index storage
+        twin = "new t %s" % cat["entry"]
+        b.raw(twin, ("eq", "ok"))
+        canon = cat["forms"][0]
         forms_all = [f for f in cat["forms"] if f not in cat["array_forms"] and f != "item"]
+
+        def both(v):
+            b.raw("push t %s %s" % (canon, b.r(v)), ("prefix", "idx"), cmp="status", shape="twin")
         for _ in range(3 + rng.below(40)):
             r = rng.below(8)
             if r == 0:
                 vs = [b.value() for _ in range(rng.below(5))]
                 b.raw("x a sextend %s [%s]" % (rng.pick(forms_all), ",".join(b.r(v) for v in vs)), ("eq", "ok"), shape="ext%d" % len(vs))
                 b.h["a"].vals.extend(vs)
+                for v in vs:
+                    both(v)
             elif r == 1:
                 b.raw("x a sreserve %d" % rng.below(40), ("eq", "ok"), shape="reserve")
             else:
                 v = b.value()
                 b.push("a", v, b.form_for(v))
+                both(v)
             if rng.below(8) == 0:
                 b.clear("a")
+                b.raw("clear t", ("eq", "ok"), shape="clear")
+        ht = b.raw("heap t", None, cmp="heap", shape="heap")
 
-        def free(got, _):
-            p = parse_pairs(got)
-            if p is None or len(p) < 2:
+        def free(got, other):
+            a, t_ = parse_pairs(got), parse_pairs(other)
+            if a is None or t_ is None:
                 return "pairs"
-            return None if p[-1] == (0, 0) and p[-2] == (0, 0) else "the stack spends heap on its own indices: %s %s" % (p[-2], p[-1])
-        b.raw("heap a", ("pred", free, "dense indices cost no heap"), cmp="heap", sig="dense-stack-indices-cost-heap@" + b.entry, shape="heap")
+            rest = list(a)
+            later = []
+            for p_ in t_:
+                # the region's own pairs: identical in the twin (same operations) ...
+                if p_ in rest:
+                    rest.remove(p_)
+                else:
+                    later.append(p_)
+            for p_ in later:
+                # ... or at least the same used bytes (capacities may differ between two instances)
+                m = next((q for q in rest if q[0] == p_[0]), None)
+                if m is None:
+                    return None     # cannot attribute pairs: leave it to the model comparison
+                rest.remove(m)
+            bad = [q for q in rest if q != (0, 0)]
+            return None if not bad else "the stack spends heap on its own indices: %s" % bad
+        b.raw("heap a", ("rel", ht, free, "dense indices cost no heap"), cmp="heap", sig="dense-stack-indices-cost-heap@" + b.entry, shape="heap")
         b.s.nontrivial = len(b.h["a"].vals) >= 3
         out.append(b.s)
     return out
